@@ -25,6 +25,8 @@ def run(ctx, crate):
     rule_orphan_split(ctx, crate)
     rule_row_transfer_pairing(ctx, crate)
     rule_suspend_protocol(ctx, crate)
+    D.rule_rows_newtype(ctx, crate)
+    D.rule_width_source(ctx, crate)
 
 
 def rule_println_forced(ctx, crate, rule="R-PRINTLN-FORCED"):
@@ -184,7 +186,23 @@ def rule_orphan_split(ctx, crate, rule="R-ORPHAN-SPLIT"):
             ok = K.in_variant_region(b, crate, c.bb, D.LINETYPE, {"Bar"})
             ctx.check(ok, rule, "bar-kept", b.name, c.loc(), "only Bar lines stay in the member's draw state",
                       "a Text/Empty line can stay in the member's draw state (it would be repainted on every draw)", cfg)
-    ctx.floor(rule, n, 2, cfg, "pushes in DrawStateWrapper::drop")
+    # text-like variants are classified alike: no LineType test in the split (or its closures) separates Text from Empty
+    bodies = [b] + crate.closures_of(b.name)
+    nsw = 0
+    for x in bodies:
+        for sb, t, pl, d in K.discr_switches(x):
+            if K.head_of_type(pl.get("ty", "")) != D.LINETYPE:
+                continue
+            nsw += 1
+            ev = K.edge_variants(crate, t, D.LINETYPE)
+            sep = [vs for vs in ev.values() if len(vs & {"Text", "Empty"}) == 1]
+            ctx.check(not sep, rule, "text-and-empty-alike", x.name, "%s:%d" % (x.file, t.get("line", 0)),
+                      "the split treats LineType::Text and LineType::Empty alike (%s)" % sorted(map(sorted, ev.values())),
+                      "the split separates LineType::Empty from LineType::Text (%s): an empty println line stays in the member's draw state and is repainted" % sorted(map(sorted, ev.values())), cfg)
+    ctx.floor(rule, nsw, 1, cfg, "LineType tests in DrawStateWrapper::drop")
+    moved = n or len([c for x in bodies for c in x.calls(r"std::vec::Vec::<T, A>::(push|append|extend.*)", r"std::iter::Extend::extend") if x.slice_args(c, [0]).has_field("orphan_lines")])
+    ctx.check(moved > 0, rule, "moves-text-to-orphans", b.name, K.fn_loc(b), "text lines are moved into the orphan queue",
+              "nothing is moved into the orphan queue", cfg)
     # all three LineType variants are known
     names = K.variant_names(crate, D.LINETYPE) or []
     ctx.check(set(names) == {"Text", "Bar", "Empty"}, rule, "linetype-variants", D.LINETYPE, "src/draw_target.rs",
